@@ -184,6 +184,11 @@ fn like_values<O: Modeled + Encode + 'static, A: Encode, B: Modeled + Encode + D
 				ctx.oracle_fail("C16", format!("{}: bytes {} decode as the target from a slice but not (or differently) with decode_from_bytes", label, &hex_or_dash(&bytes)[..hex_or_dash(&bytes).len().min(60)]));
 			}
 		}
+		// the alias form through `using_encoded` (what hashers and key builders see) and `encoded_size`
+		match std::panic::catch_unwind(std::panic::AssertUnwindSafe(|| (a.using_encoded(|b| b.to_vec()), a.encoded_size()))) {
+			Ok((u, n)) if u == bytes && n == bytes.len() => {},
+			other => ctx.oracle_fail("C16", format!("{}: using_encoded / encoded_size of the alias form give {:?}, encode gives {} bytes", label, other.ok().map(|(u, n)| (u.len(), n)), bytes.len())),
+		}
 		// oracle (C16)
 		match dv {
 			Some((b, 0)) => {
@@ -327,6 +332,9 @@ pub fn like_stream(ctx: &mut Ctx) {
 	like_case!(ctx; Vec<f64>, VecDeque<&'static f64> => Vec<f64>, false, |o| o.iter().collect::<VecDeque<_>>());
 	like_case!(ctx; [f64; 3], [Box<f64>; 3] => [f64; 3], false, |o| [Box::new(o[0]), Box::new(o[1]), Box::new(o[2])]);
 	like_case!(ctx; [f32; 4], [&'static f32; 4] => [f32; 4], false, |o| [&o[0], &o[1], &o[2], &o[3]]);
+	like_case!(ctx; ([u8; 64], [u8; 32], [u8; 32], Option<u32>), (&'static [u8; 64], Box<[u8; 32]>, &'static [u8; 32], &'static Option<u32>) => ([u8; 64], [u8; 32], [u8; 32], Option<u32>), false, |o| (&o.0, Box::new(o.1), &o.2, &o.3));
+	like_case!(ctx; ([u8; 64], [u16; 32], Compact<u32>, u8), (&'static [u8; 64], &'static [u16; 32], &'static Compact<u32>, &'static u8) => ([u8; 64], [u16; 32], Compact<u32>, u8), false, |o| (&o.0, &o.1, &o.2, &o.3));
+	like_case!(ctx; ([u8; 127], u8, Result<u8, u8>), Box<([u8; 127], u8, Result<u8, u8>)> => ([u8; 127], u8, Result<u8, u8>), false, |o| Box::new(o.clone()));
 	like_case!(ctx; f32, &'static f32 => f32, false, |o| o);
 	like_case!(ctx; f64, Box<f64> => f64, false, |o| Box::new(*o));
 	like_case!(ctx; (f32, f64), (&'static f32, Rc<f64>) => (f32, f64), false, |o| (&o.0, Rc::new(o.1)));
